@@ -355,3 +355,316 @@ Proof.
     lia.
   - left. apply cnt_pos_in; lia.
 Qed.
+
+(* ------------------------------------------------------------------ liveness: the fault-free scheduler drains *)
+Definition all_known (s : state) : Prop :=
+  forall it, In it (pend s) -> memN (ir it) (known s) = true.
+
+Definition drainable (c : cfg) (s : state) : Prop :=
+  1 <= nwork c /\ length (pend s) <= qcap c /\ all_known s.
+
+Lemma len_pend : forall s,
+  length (pend s) = length (queue s) + length (buf s) + length (blk s)
+                    + length (concat (fan s)) + length (flat_map jitems (flight s)).
+Proof. intros; unfold pend; rewrite !app_length; lia. Qed.
+
+Lemma in_pend : forall it s,
+  In it (pend s) <-> In it (queue s) \/ In it (buf s) \/ In it (blk s)
+                     \/ In it (concat (fan s)) \/ In it (flat_map jitems (flight s)).
+Proof. intros; unfold pend; rewrite !in_app_iff; tauto. Qed.
+
+Lemma sum_deletes : forall its, list_sum (map wt_task (map JDelete its)) = length its.
+Proof. induction its as [|x l IH]; simpl; [reflexivity|]. rewrite IH; reflexivity. Qed.
+
+Lemma len_concat_ginsert : forall x gs, length (concat (ginsert x gs)) = length (concat gs) + 1.
+Proof.
+  intros x gs; induction gs as [|g gs IH]; [reflexivity|].
+  destruct g as [|h g']; cbn [ginsert].
+  - rewrite !concat_cons, !app_length, IH; lia.
+  - destruct (N.eqb (ir h) (ir x)); rewrite !concat_cons, !app_length, ?IH; simpl; lia.
+Qed.
+
+Lemma len_concat_group_acc : forall l acc,
+  length (concat (fold_left (fun gs x => if valid x then ginsert x gs else gs) l acc))
+  <= length (concat acc) + length l.
+Proof.
+  induction l as [|x l IH]; intros acc; cbn [fold_left]; [simpl; lia|].
+  specialize (IH (if valid x then ginsert x acc else acc)).
+  destruct (valid x); [rewrite len_concat_ginsert in IH|]; simpl; lia.
+Qed.
+
+Lemma len_concat_group : forall l, length (concat (group l)) <= length l.
+Proof. intros; pose proof (len_concat_group_acc l []); simpl in *; assumption. Qed.
+
+Lemma in_group : forall it n l, In it (concat (rotate n (group l))) -> In it l.
+Proof.
+  intros it n l H. apply cnt_pos_in in H. rewrite cnt_rotate, cnt_group in H.
+  apply cnt_pos_in in H. apply filter_In in H; tauto.
+Qed.
+
+Lemma wt_buf_snoc : forall l x, wt_buf (l ++ [x]) = 4 + 2 * length (l ++ [x]).
+Proof. intros [|y l] x; reflexivity. Qed.
+
+Lemma wt_buf_le : forall l, wt_buf l <= 4 + 2 * length l.
+Proof. intros [|y l]; simpl; lia. Qed.
+
+Lemma wt_buf_snoc_le : forall l x, wt_buf (l ++ [x]) <= wt_buf l + 6.
+Proof. intros [|y l] x; simpl; rewrite ?app_length; simpl; lia. Qed.
+
+Lemma flush_nonempty : forall s, buf s <> [] -> flush s = set_run (queue s) [] (Some (buf s)) s.
+Proof. intros s H; unfold flush; destruct (buf s); [congruence|reflexivity]. Qed.
+
+Definition progress (c : cfg) (s s' : state) : Prop :=
+  work s' < work s /\ length (pend s') <= length (pend s)
+  /\ (forall it, In it (pend s') -> In it (pend s)) /\ known s' = known s
+  /\ accepted s' = accepted s.
+
+Lemma list_sum_cons : forall x l, list_sum (x :: l) = x + list_sum l.
+Proof. reflexivity. Qed.
+Ltac lsum := rewrite ?list_sum_cons; change (list_sum (@nil nat)) with 0.
+
+Lemma sched_progress : forall c s e,
+  drainable c s -> sched s = Some e -> progress c s (step c e s).
+Proof.
+  intros c s e (W & L & K) S. unfold sched in S. unfold progress.
+  destruct (flight s) as [|j fl] eqn:F.
+  2:{ (* a worker has something to do *)
+    inversion S; subst e; clear S. cbn [step]. rewrite F. cbn [pick]. unfold wstep.
+    destruct j as [|[its|x|x] rest].
+    - cbn [app]. unfold work. rewrite !len_pend. proj. rewrite F. cbn [map flat_map]. lsum.
+      change (jitems []) with (@nil item). unfold wt_job. cbn [app map]. lsum.
+      repeat split; try lia. intros it; rewrite !in_pend; proj; rewrite F; cbn [flat_map].
+      change (jitems []) with (@nil item); cbn [app]; tauto.
+    - assert (G : (memN (gres its) (known s) && true)%bool = true \/ its = []).
+      { destruct its as [|h its']; [right; reflexivity|left]. rewrite andb_true_r. apply K.
+        apply in_pend; right; right; right; right. rewrite F; cbn [flat_map jitems titems].
+        apply in_or_app; left. cbn [flat_map titems]. apply in_or_app; left; left; reflexivity. }
+      assert (Same : forall j', jitems j' = jitems (JGroup its :: rest) ->
+                list_sum (map wt_task j') < list_sum (map wt_task (JGroup its :: rest)) ->
+                let s' := set_flight ([] ++ j' :: fl) s in
+                work s' < work s /\ length (pend s') <= length (pend s)
+                /\ (forall it, In it (pend s') -> In it (pend s)) /\ known s' = known s
+                /\ accepted s' = accepted s).
+      { intros j' Ej Wj s'. unfold s', work. rewrite !len_pend. proj. rewrite F. cbn [app map flat_map]. lsum.
+        rewrite Ej. unfold wt_job. repeat split; try lia.
+        intros it; rewrite !in_pend; proj; rewrite F; cbn [app flat_map]; rewrite Ej; tauto. }
+      destruct G as [G| ->].
+      + rewrite G. apply Same.
+        * rewrite jitems_app, jitems_deletes. reflexivity.
+        * rewrite map_app, list_sum_app, sum_deletes. change (map wt_task (JGroup its :: rest)) with (wt_task (JGroup its) :: map wt_task rest). lsum. cbn [wt_task]. lia.
+      + destruct (memN (gres []) (known s) && true)%bool; apply Same; try reflexivity;
+          cbn [map app]; lsum; cbn [wt_task length]; lia.
+    - (* delete succeeds *)
+      unfold work. rewrite !len_pend. proj. rewrite F. cbn [app map flat_map]. lsum.
+      unfold wt_job. cbn [map wt_task]. lsum. rewrite !app_length.
+      change (jitems (JDelete x :: rest)) with ([x] ++ jitems rest). rewrite app_length. cbn [length].
+      repeat split; try lia.
+      intros it; rewrite !in_pend; proj; rewrite F; cbn [app flat_map].
+      change (jitems (JDelete x :: rest)) with ([x] ++ jitems rest). rewrite !in_app_iff. tauto.
+    - (* requeue: there is room *)
+      assert (R : room c s = true).
+      { unfold room. apply Nat.ltb_lt. rewrite len_pend, F in L. cbn [flat_map] in L.
+        change (jitems (JRequeue x :: rest)) with ([x] ++ jitems rest) in L.
+        rewrite !app_length in L. cbn [length] in L. lia. }
+      rewrite R. unfold work. rewrite !len_pend. proj. rewrite F. cbn [app map flat_map]. lsum.
+      unfold wt_job. cbn [map wt_task]. lsum. rewrite !app_length.
+      change (jitems (JRequeue x :: rest)) with ([x] ++ jitems rest). rewrite !app_length. cbn [length].
+      repeat split; try lia.
+      intros it; rewrite !in_pend; proj; rewrite F; cbn [app flat_map].
+      change (jitems (JRequeue x :: rest)) with ([x] ++ jitems rest). rewrite !in_app_iff. tauto. }
+  destruct (fan s) as [|b f'] eqn:FA.
+  2:{ (* an idle worker takes a batch *)
+    inversion S; subst e; clear S. cbn [step]. rewrite FA, F. cbn [length].
+    assert (Hw : (0 <? nwork c) = true) by (apply Nat.ltb_lt; lia). rewrite Hw.
+    unfold work. rewrite !len_pend. proj. rewrite FA, F. cbn [app map flat_map]. lsum.
+    rewrite app_nil_r, jitems_groups, concat_cons, app_length, len_concat_rotate.
+    unfold wt_job, wt_batch. rewrite sum_groups, len_rotate, len_concat_rotate.
+    pose proof (len_group b). pose proof (len_concat_group b).
+    repeat split; try lia.
+    intros it; rewrite !in_pend; proj; rewrite FA, F; cbn [app flat_map].
+    rewrite app_nil_r, jitems_groups, concat_cons, in_app_iff.
+    intros [H1|[H1|[H1|[H1|H1]]]]; [auto|auto|auto|right;right;right;left;right;exact H1|right;right;right;left;left; eapply in_group; exact H1]. }
+  destruct (blocked s) as [b|] eqn:B.
+  { (* the batch goes into the (empty) fanout channel *)
+    inversion S; subst e; clear S. cbn [step]. rewrite B, FA, F. cbn [length].
+    assert (Hw : (0 + 0 <? fcap c + nwork c) = true) by (apply Nat.ltb_lt; lia). rewrite Hw.
+    unfold work. rewrite !len_pend. proj. rewrite B, FA, F. cbn [app map flat_map concat wt_blocked]. lsum.
+    unfold wt_batch. rewrite app_nil_r. cbn [length]. repeat split; try lia.
+    intros it; rewrite !in_pend; proj; rewrite B, FA, F; cbn [app flat_map concat]; rewrite app_nil_r; tauto. }
+  destruct (queue s) as [|x q] eqn:Q.
+  2:{ (* run receives *)
+    inversion S; subst e; clear S. cbn [step]. rewrite B, Q.
+    assert (NE : buf s ++ [x] <> []) by (destruct (buf s); discriminate).
+    proj.
+    destruct (threshold c <=? length (buf s ++ [x])).
+    - rewrite flush_nonempty by (proj; exact NE). proj.
+      unfold work. rewrite !len_pend. proj. rewrite B, Q, FA, F.
+      cbn [map wt_blocked wt_buf length flat_map concat app]. lsum.
+      assert (2 * length (buf s) <= wt_buf (buf s)) by (destruct (buf s); simpl; lia). rewrite !app_length. cbn [length].
+      repeat split; try lia.
+      intros it; rewrite !in_pend; proj; rewrite B, Q, FA, F. rewrite in_app_iff. simpl. tauto.
+    - unfold work. rewrite !len_pend. proj. rewrite B, Q, FA, F.
+      cbn [map wt_blocked length flat_map concat app]. lsum.
+      pose proof (wt_buf_snoc_le (buf s) x). rewrite !app_length. cbn [length].
+      repeat split; try lia.
+      intros it; rewrite !in_pend; proj; rewrite B, Q, FA, F. rewrite in_app_iff. simpl. tauto. }
+  destruct (buf s) as [|x l] eqn:BU; [discriminate|].
+  (* the ticker fires *)
+  inversion S; subst e; clear S. cbn [step]. rewrite B. unfold flush. rewrite BU.
+  unfold work. rewrite !len_pend. proj. rewrite B, Q, BU, FA, F.
+  cbn [map wt_blocked wt_buf length flat_map concat app]. lsum.
+  repeat split; try lia.
+  intros it; rewrite !in_pend; proj; rewrite B, Q, BU, FA, F. simpl. tauto.
+Qed.
+
+Lemma sched_none : forall s, sched s = None -> pend s = [].
+Proof.
+  intros s H. unfold sched in H.
+  destruct (flight s) eqn:F; [|discriminate]. destruct (fan s) eqn:FA; [|discriminate].
+  destruct (blocked s) eqn:B; [discriminate|]. destruct (queue s) eqn:Q; [|discriminate].
+  destruct (buf s) eqn:BU; [|discriminate].
+  unfold pend, blk. rewrite F, FA, B, Q, BU. reflexivity.
+Qed.
+
+Lemma drainable_step : forall c s e,
+  drainable c s -> sched s = Some e -> drainable c (step c e s).
+Proof.
+  intros c s e D S. destruct (sched_progress c s e D S) as (_ & L & I & K & _).
+  destruct D as (W & L0 & K0). repeat split; [assumption|lia|].
+  intros it H. rewrite K. apply K0, I, H.
+Qed.
+
+Lemma drain_done : forall c n s, drainable c s -> work s <= n -> pend (drain c n s) = [].
+Proof.
+  intros c n; induction n as [|n IH]; intros s D Wk; cbn [drain].
+  - destruct (sched s) as [e|] eqn:S; [|apply sched_none, S].
+    destruct (sched_progress c s e D S) as (Lt & _). lia.
+  - destruct (sched s) as [e|] eqn:S; [|apply sched_none, S].
+    apply IH; [eapply drainable_step; eassumption|].
+    destruct (sched_progress c s e D S) as (Lt & _). lia.
+Qed.
+
+Lemma drain_is_run : forall c n s, drain c n s = run c (drain_evs c n s) s.
+Proof.
+  intros c n; induction n as [|n IH]; intros s; cbn [drain drain_evs]; [reflexivity|].
+  destruct (sched s) as [e|]; [|reflexivity]. cbn [run fold_left]. apply IH.
+Qed.
+
+Lemma drain_evs_fault_free : forall c n s e, In e (drain_evs c n s) ->
+  e = WStep 0 Ok \/ e = Start 0 \/ e = Submit \/ e = Recv \/ e = Tick.
+Proof.
+  intros c n; induction n as [|n IH]; intros s e H; cbn [drain_evs] in H; [destruct H|].
+  destruct (sched s) as [e0|] eqn:S; [|destruct H].
+  destruct H as [<-|H]; [|eapply IH; eassumption].
+  unfold sched in S.
+  destruct (flight s); [|inversion S; auto]. destruct (fan s); [|inversion S; auto].
+  destruct (blocked s); [inversion S; auto|]. destruct (queue s); [|inversion S; auto].
+  destruct (buf s); [discriminate|inversion S; auto].
+Qed.
+
+Lemma drain_accepted : forall c n s, drainable c s -> accepted (drain c n s) = accepted s.
+Proof.
+  intros c n; induction n as [|n IH]; intros s D; cbn [drain]; [reflexivity|].
+  destruct (sched s) as [e|] eqn:S; [|reflexivity].
+  rewrite IH by (eapply drainable_step; eassumption).
+  destruct (sched_progress c s e D S) as (_ & _ & _ & _ & A). exact A.
+Qed.
+
+Lemma run_app : forall c e1 e2 s, run c (e1 ++ e2) s = run c e2 (run c e1 s).
+Proof. intros; unfold run; apply fold_left_app. Qed.
+
+(* C11_eventual: from every reachable state in which the items still in the worker fit the
+   receive queue and address registered resources, [work s] fault-free scheduler steps empty the
+   worker, and then no accepted (non-empty-resource) request has a row left. *)
+Theorem eventual : forall c t0 k0 evs,
+  let s := run c evs (init t0 k0) in
+  drainable c s ->
+  let s' := drain c (work s) s in
+  s' = run c (evs ++ drain_evs c (work s) s) (init t0 k0) /\
+  pend s' = [] /\ accepted s' = accepted s /\
+  (forall it, In it (accepted s) -> valid it = true -> ~ In it (table s')).
+Proof.
+  intros c t0 k0 evs s D s'.
+  assert (E : s' = run c (evs ++ drain_evs c (work s) s) (init t0 k0)).
+  { unfold s'. rewrite drain_is_run, run_app. reflexivity. }
+  assert (P : pend s' = []) by (apply drain_done; [assumption|lia]).
+  assert (A : accepted s' = accepted s) by (apply drain_accepted; assumption).
+  repeat split; try assumption.
+  intros it Ha Hv.
+  pose proof (no_loss_valid c t0 k0 (evs ++ drain_evs c (work s) s) it) as NL.
+  cbn zeta in NL. rewrite <- E in NL. rewrite A, P in NL.
+  destruct (NL Ha Hv) as [[]|H]; exact H.
+Qed.
+
+(* the capacity hypothesis holds in particular whenever the queue is at least as large as the
+   number of requests ever accepted *)
+Lemma pend_le_accepted : forall c t0 k0 evs,
+  let s := run c evs (init t0 k0) in length (pend s) <= length (accepted s).
+Proof.
+  intros c t0 k0 evs s. pose proof (inv_reach c t0 k0 evs) as I. fold s in I.
+  assert (G : forall l1 l2 : list item, (forall it, cnt it l1 <= cnt it l2) -> length l1 <= length l2).
+  { induction l1 as [|x l1 IH]; intros l2 H; [simpl; lia|].
+    assert (In x l2) by (apply cnt_pos_in; specialize (H x); rewrite cnt_cons, item_eqb_refl in H; lia).
+    apply in_split in H0. destruct H0 as (a & b & ->).
+    rewrite app_length. cbn [length]. specialize (IH (a ++ b)). rewrite app_length in IH.
+    enough (length l1 <= length a + length b) by lia. apply IH.
+    intros it. specialize (H it). rewrite cnt_cons, !cnt_app, cnt_cons in H. rewrite cnt_app. lia. }
+  apply G. intros it. rewrite (inv_count _ _ I). lia.
+Qed.
+
+Corollary eventual_big_queue : forall c t0 k0 evs,
+  let s := run c evs (init t0 k0) in
+  1 <= nwork c -> length (accepted s) <= qcap c -> all_known s ->
+  let s' := drain c (work s) s in
+  pend s' = [] /\ (forall it, In it (accepted s) -> valid it = true -> ~ In it (table s')).
+Proof.
+  intros c t0 k0 evs s W Q K s'.
+  assert (D : drainable c s).
+  { repeat split; try assumption. pose proof (pend_le_accepted c t0 k0 evs) as H. cbn zeta in H. unfold s in *. lia. }
+  destruct (eventual c t0 k0 evs D) as (_ & P & _ & T). split; assumption.
+Qed.
+
+(* ------------------------------------------------------------------ without the capacity hypothesis: circular wait *)
+Module Stuck.
+  Definition c0 := mkCfg 1 1 0 1.
+  Definition a := mkItem 1 1 1.
+  Definition b := mkItem 2 1 1.
+  Definition d := mkItem 3 1 1.
+  Definition t0 := [a; b; d].
+  Definition evs0 := [Accept a; Recv; Submit; Start 0; WStep 0 Ok; Accept b; Recv; Accept d].
+  Definition stuck (k : list N) : state :=
+    mkState [d] [] (Some [b]) [] [[JRequeue a]] t0 k [a; b; d]
+            [(a, st_committed); (b, st_committed); (d, st_committed)] [] [] [].
+
+  Lemma reach : run c0 evs0 (init t0 []) = stuck [].
+  Proof. vm_compute. reflexivity. Qed.
+
+  Lemma stuck_step : forall e k, exists k', step c0 e (stuck k) = stuck k'.
+  Proof.
+    intros e k. destruct e as [it| | | |rot|w o|r]; try (exists k; reflexivity).
+    - destruct w as [|[|w]]; [destruct o; exists k; reflexivity|exists k; reflexivity|exists k; reflexivity].
+    - exists (r :: k); reflexivity.
+  Qed.
+
+  Lemma stuck_run : forall evs k, exists k', run c0 evs (stuck k) = stuck k'.
+  Proof.
+    induction evs as [|e evs IH]; intros k; [exists k; reflexivity|].
+    cbn [run fold_left]. destruct (stuck_step e k) as (k1 & ->). apply IH.
+  Qed.
+End Stuck.
+
+(* for queue size 1, one worker and an unbuffered fan-out there is a reachable state from which
+   NO continuation whatsoever (any events, any outcomes, the resource appearing) ever deletes the
+   rows of three requests that were all answered Committed: run waits in commitWorker.Do for the
+   worker, the worker waits in `aw.commitQueue <- ctx` for run. *)
+Theorem circular_wait_small_buffers :
+  exists c t0 evs0, forall evs,
+    let s := run c (evs0 ++ evs) (init t0 []) in
+    length (accepted s) = 3 /\
+    answers s = map (fun it => (it, st_committed)) (accepted s) /\
+    (forall it, In it (accepted s) -> In it (table s) /\ In it (pend s)).
+Proof.
+  exists Stuck.c0, Stuck.t0, Stuck.evs0. intros evs s.
+  unfold s. rewrite run_app, Stuck.reach. destruct (Stuck.stuck_run evs []) as (k & ->).
+  repeat split; simpl in *; intuition (subst; auto).
+Qed.
